@@ -265,14 +265,21 @@ Definition oval2 {p} (o : option (Zp p * Zp p)) : option (Z * Z) := option_map v
 Definition oval3 {p} (o : option (Zp p * Zp p * Zp p)) : option (Z * Z * Z) := option_map val3 o.
 Ltac invtac :=
   cbv [oval2 oval3 option_map val2 val3 q_inv c_inv q_eqb c_eqb q_zero c_zero c0 c1 c2
-       f64_x2 f64_x3 x2_mul x2_frob x3_mul x3_frob
-       f64_ext2_mul f64_ext2_frobenius f64_ext3_mul f64_ext3_frobenius fst snd
-       F64_ops zpT_ops zp_ops fzero fone fadd fsub fmul fneg fdouble fsquare finv feqb fofz zp_mk zp_val proj1_sig
+       f64_x2 f64_x3 f62_x2 f62_x3 f128_x2 x2_mul x2_frob x3_mul x3_frob
+       f64_ext2_mul f64_ext2_frobenius f64_ext3_mul f64_ext3_frobenius
+       f62_ext2_mul f62_ext2_frobenius f62_ext3_mul f62_ext3_frobenius f128_ext2_mul f128_ext2_frobenius fst snd
+       F64_ops F62_ops F128_ops zpT_ops zp_ops fzero fone fadd fsub fmul fneg fdouble fsquare finv feqb fofz zp_mk zp_val proj1_sig
        andb negb];
   repeat match goal with |- context [if ?c then _ else _] => destruct c end; reflexivity.
 Lemma f64_q_inv_val : forall dbg a, oval2 (q_inv F64_ops (f64_x2 F64_ops) dbg a) = q_inv (zp_ops P64) (f64_x2 (zp_ops P64)) dbg (val2 a).
 Proof. intros dbg [[a0 ?] [a1 ?]]. invtac. Qed.
 Lemma f64_c_inv_val : forall dbg a, oval3 (c_inv F64_ops (f64_x3 F64_ops) dbg a) = c_inv (zp_ops P64) (f64_x3 (zp_ops P64)) dbg (val3 a).
+Proof. intros dbg [[[a0 ?] [a1 ?]] [a2 ?]]. invtac. Qed.
+Lemma f62_q_inv_val : forall dbg a, oval2 (q_inv F62_ops (f62_x2 F62_ops) dbg a) = q_inv (zp_ops P62) (f62_x2 (zp_ops P62)) dbg (val2 a).
+Proof. intros dbg [[a0 ?] [a1 ?]]. invtac. Qed.
+Lemma f128_q_inv_val : forall dbg a, oval2 (q_inv F128_ops (f128_x2 F128_ops) dbg a) = q_inv (zp_ops P128) (f128_x2 (zp_ops P128)) dbg (val2 a).
+Proof. intros dbg [[a0 ?] [a1 ?]]. invtac. Qed.
+Lemma f62_c_inv_val : forall dbg a, oval3 (c_inv F62_ops (f62_x3 F62_ops) dbg a) = c_inv (zp_ops P62) (f62_x3 (zp_ops P62)) dbg (val3 a).
 Proof. intros dbg [[[a0 ?] [a1 ?]] [a2 ?]]. invtac. Qed.
 
 (* ------------------------------------------------------------------ unconditional inverse theorems *)
@@ -362,3 +369,51 @@ Proof.
         (conj f62_ext3_mul_val (conj f62_ext3_frob_val (conj f128_ext2_mul_val (conj f128_ext2_frob_val
         (conj f64_q_inv_val f64_c_inv_val))))))))))))).
 Qed.
+
+(* ------------------------------------------------------------------ the same, stated on the EXECUTABLE instance
+   (plain Z, `zp_ops p`, canonical residues): exactly the functions the correspondence driver runs *)
+Definition mkzp (p x : Z) (H : 0 <= x < p) : Zp p := exist _ x (proj2 (zp_canon_iff p x) H).
+
+Ltac exec2 spec invval mulval :=
+  let dbg := fresh "dbg" in let a0 := fresh "a0" in let a1 := fresh "a1" in
+  let H0 := fresh "H0" in let H1 := fresh "H1" in let Hne := fresh "Hne" in
+  intros dbg a0 a1 H0 H1 Hne;
+  match goal with |- context [zp_ops ?p] =>
+    destruct (spec dbg (mkzp p a0 H0, mkzp p a1 H1)) as (ia & E & M);
+    [ intros Ea; apply Hne; apply (f_equal val2) in Ea; exact Ea
+    | exists (val2 ia); split;
+      [ rewrite <- (invval dbg (mkzp p a0 H0, mkzp p a1 H1)), E; reflexivity
+      | rewrite <- (mulval (mkzp p a0 H0, mkzp p a1 H1) ia), M; reflexivity ] ]
+  end.
+Ltac exec3 spec invval mulval :=
+  let dbg := fresh "dbg" in let a0 := fresh "a0" in let a1 := fresh "a1" in let a2 := fresh "a2" in
+  let H0 := fresh "H0" in let H1 := fresh "H1" in let H2 := fresh "H2" in let Hne := fresh "Hne" in
+  intros dbg a0 a1 a2 H0 H1 H2 Hne;
+  match goal with |- context [zp_ops ?p] =>
+    destruct (spec dbg (mkzp p a0 H0, mkzp p a1 H1, mkzp p a2 H2)) as (ia & E & M);
+    [ intros Ea; apply Hne; apply (f_equal val3) in Ea; exact Ea
+    | exists (val3 ia); split;
+      [ rewrite <- (invval dbg (mkzp p a0 H0, mkzp p a1 H1, mkzp p a2 H2)), E; reflexivity
+      | rewrite <- (mulval (mkzp p a0 H0, mkzp p a1 H1, mkzp p a2 H2) ia), M; reflexivity ] ]
+  end.
+
+Theorem f64_quad_inv_exec : forall dbg a0 a1, 0 <= a0 < P64 -> 0 <= a1 < P64 -> (a0, a1) <> (0, 0) ->
+  exists ia, q_inv (zp_ops P64) (f64_x2 (zp_ops P64)) dbg (a0, a1) = Some ia /\
+             f64_ext2_mul (zp_ops P64) (a0, a1) ia = (1, 0).
+Proof. exec2 f64_quad_inv_spec f64_q_inv_val f64_ext2_mul_val. Qed.
+Theorem f62_quad_inv_exec : forall dbg a0 a1, 0 <= a0 < P62 -> 0 <= a1 < P62 -> (a0, a1) <> (0, 0) ->
+  exists ia, q_inv (zp_ops P62) (f62_x2 (zp_ops P62)) dbg (a0, a1) = Some ia /\
+             f62_ext2_mul (zp_ops P62) (a0, a1) ia = (1, 0).
+Proof. exec2 f62_quad_inv_spec f62_q_inv_val f62_ext2_mul_val. Qed.
+Theorem f128_quad_inv_exec : forall dbg a0 a1, 0 <= a0 < P128 -> 0 <= a1 < P128 -> (a0, a1) <> (0, 0) ->
+  exists ia, q_inv (zp_ops P128) (f128_x2 (zp_ops P128)) dbg (a0, a1) = Some ia /\
+             f128_ext2_mul (zp_ops P128) (a0, a1) ia = (1, 0).
+Proof. exec2 f128_quad_inv_spec f128_q_inv_val f128_ext2_mul_val. Qed.
+Theorem f64_cube_inv_exec : forall dbg a0 a1 a2, 0 <= a0 < P64 -> 0 <= a1 < P64 -> 0 <= a2 < P64 -> (a0, a1, a2) <> (0, 0, 0) ->
+  exists ia, c_inv (zp_ops P64) (f64_x3 (zp_ops P64)) dbg (a0, a1, a2) = Some ia /\
+             f64_ext3_mul (zp_ops P64) (a0, a1, a2) ia = (1, 0, 0).
+Proof. exec3 f64_cube_inv_spec f64_c_inv_val f64_ext3_mul_val. Qed.
+Theorem f62_cube_inv_exec : forall dbg a0 a1 a2, 0 <= a0 < P62 -> 0 <= a1 < P62 -> 0 <= a2 < P62 -> (a0, a1, a2) <> (0, 0, 0) ->
+  exists ia, c_inv (zp_ops P62) (f62_x3 (zp_ops P62)) dbg (a0, a1, a2) = Some ia /\
+             f62_ext3_mul (zp_ops P62) (a0, a1, a2) ia = (1, 0, 0).
+Proof. exec3 f62_cube_inv_spec f62_c_inv_val f62_ext3_mul_val. Qed.
